@@ -1482,11 +1482,7 @@ void assume(const z3::expr& cond, const std::string& why)
     if (c.is_true())
         return;
     if (g_concrete)
-    {
-        if (c.is_false())
-            throw Infeasible();
-        return;
-    }
+        return;  // replay: the model satisfied every assumption exactly; rounding its values to double may not
     if (c.is_false())
         throw Infeasible();
     // only new (non-replayed) assumptions need a satisfiability check; replays are deterministic anyway
